@@ -2,7 +2,8 @@ package bytecode
 
 //verif:dir internal/language/bytecode
 //verif:include C01/c01_helpers.go
-//verif:bound one instruction (+ - * / % & | and the six comparisons) on two integer operands of any two types among int8 int16 int32 int64 int uint8 uint16 uint32 with full-width arbitrary values, each operand constant (data.Immutable) or not; executed once in strict and once in relaxed mode from identical states
+//verif:include C03/c03_increment.go
+//verif:bound one instruction (+ - * / % & | and the six comparisons) on two integer operands of any two types among int8 int16 int32 int64 int uint8 uint16 uint32 with full-width arbitrary values, each operand constant (data.Immutable) or not; executed once in strict and once in relaxed mode from identical states; and the fused Increment instruction (x++, x += k with a constant k) on a variable of every integer type
 //verif:outside uint64/uint and floating-point operands (coercions compare float64 values); whole programs; the assignment/argument/return boundaries; every optimizer level
 
 import (
@@ -52,5 +53,30 @@ func VerifC04_strictAcceptedMeansSameUnderRelaxed() {
 	sym.Assert(errR == nil, "an operation strict mode accepts fails under relaxed typing")
 	if errR == nil {
 		sym.Assert(rs == rr, "an operation strict mode accepts gives a different value or type under relaxed typing")
+	}
+}
+
+// VerifC04_incrementStrictVsRelaxed: the fused Increment instruction.
+func VerifC04_incrementStrictVsRelaxed() {
+	t := sym.Choice("type", c01IntTypes)
+	x := c01Int("x", t)
+	var k any = data.Constant(1)
+	if sym.Bool("arbitraryIncrement") {
+		k = data.Constant(sym.Int("k"))
+	}
+	cs := c03SymCtx(0, "x", x)
+	errS := incrementByteCode(cs, []any{"x", k})
+	sym.Reach("strict-run")
+	if errS != nil {
+		return
+	}
+	cr := c03SymCtx(1, "x", x)
+	errR := incrementByteCode(cr, []any{"x", k})
+	sym.Reach("relaxed-run")
+	sym.Assert(errR == nil, "an increment strict mode accepts fails under relaxed typing")
+	if errR == nil {
+		vs, _ := cs.get("x")
+		vr, _ := cr.get("x")
+		sym.Assert(vs == vr, "an increment strict mode accepts leaves a different value or type under relaxed typing")
 	}
 }
